@@ -227,9 +227,26 @@ def conditional_input_graph(g: GSpec) -> bool:
     return False
 
 
+def deep5_graphs():
+    """The 268 five-node graphs of the deep ID corpus (nested districts: IDENTIFY recurses twice on many of them)."""
+    import json
+    from pathlib import Path
+
+    data = json.loads((Path(__file__).resolve().parent.parent / "data" / "id_deep5.json").read_text())
+    seen = {}
+    for c in data["cases"]:
+        g = GSpec.from_json(c["g"])
+        seen.setdefault(g.key(), g)
+    return [seen[k] for k in sorted(seen)]
+
+
 def jobs_for(t):
     jobs = []
     to = TIMEOUT_MS[t]
+    k5 = 16 if t == "quick" else 3
+    for i, g in enumerate(deep5_graphs()):
+        if i % k5 == seed() % k5:
+            jobs.append((g, 1, to))
     if t == "quick":
         for g in family(3):
             jobs.append((g, None, to))
@@ -261,7 +278,7 @@ def run() -> int:
         "returned Expression -> z3 polynomial terms (vf/sem/denote.py)",
     ]
     rep.bounds = {
-        "graphs": "quick: ADMGs <=3 nodes (two labellings, every topological order), curated 4-node graphs (2 orders), 1/4 of the 4-node classes (2 orders); thorough: all ADMGs <=4 nodes (two labellings, 2 orders), curated list",
+        "graphs": "both tiers: a seed-chosen slice (quick 1/16, thorough 1/3) of 268 five-node graphs with nested districts (the graphs of vf/data/id_deep5.json), one topological order; quick: ADMGs <=3 nodes (two labellings, every topological order), curated 4-node graphs (2 orders), 1/4 of the 4-node classes (2 orders); thorough: all ADMGs <=4 nodes (two labellings, 2 orders), curated list",
         "inputs": "every district T; Q[T] = the library's own Lemma-1 product from P(V) and, when every node outside T is an unconfounded root, also the plain conditional P(T | V - T); each form also population-tagged (PP[pi*]), since tian_id.py has separate branches for it (both tiers: every 4-node class with a 3-node district and such a root); every non-empty C subset of T inducing a single district; for every proper ancestral set A = An(C) of G_T: Q[A] by Lemma 3 (compute_ancestral_set_q_value) and Q[D] for EVERY district D of G_A by compute_c_factor on that derived expression (Lemma 4)",
         "models": "all positive binary SCMs, one binary latent per bidirected edge; all value assignments of all variables in one query",
         "per_query_timeout_ms": TIMEOUT_MS[t],
